@@ -140,6 +140,10 @@ def run_check(prop, tier, keep=False, only=None, jobs=16):
                         continue
                     if hr.status == "failure":
                         real = [f for f in hr.failed if f[1] == "Failure" and "unwinding assertion" not in f[0]]
+                        if any("is not currently supported" in f[0] for f in hr.failed):
+                            # the code under proof reached a construct Kani does not model (a tool limit, not a defect)
+                            undecided.append("%s: reached a construct Kani does not support: %s" % (h.name, [f[0] for f in hr.failed if "not currently supported" in f[0]][0][:90]))
+                            continue
                         if not real or any("unwinding assertion" in f[0] for f in hr.failed):
                             # beyond the unwinding bound CBMC cuts paths: nothing else it reports for this harness is reliable
                             undecided.append("%s: an unwinding assertion failed (bound too small)" % h.name)
